@@ -1,5 +1,42 @@
-(* C15 — placeholder while the proofs are written *)
-From PBK Require Import Base PathParser PathGrammar.
-Theorem C15_smoke : parse [65%N] = Ok (mkPath (Some slice_all) [mkComp 62%N [65%N] slice_all]).
-Proof. vm_compute. reflexivity. Qed.
-Print Assumptions C15_smoke.
+(* C15 — The path-expression parser accepts exactly the documented grammar.
+   Statements only; every proof is [exact <lemma of PathProofs>].
+
+   [parse]    = model of NodePathParser.parse with fixes/C15_end_of_input.diff and
+                fixes/C15_strip_whitespace.diff applied (PathParser.v)
+   [Query]    = the documented grammar as an inductive relation (PathGrammar.v)
+   [grammar]  = an independent recursive-descent recogniser for it
+   [strip_ws] = removal of the white space the loop ignores (string.whitespace) *)
+From PBK Require Import Base PathParser PathGrammar PathProofs.
+
+(* MAIN: for EVERY string (no length bound): accepted with path p iff the string,
+   white space removed, derives p in the grammar *)
+Theorem C15_parse_iff_grammar : forall s p, parse s = Ok p <-> Query (strip_ws s) p.
+Proof. exact parse_iff_grammar. Qed.
+Print Assumptions C15_parse_iff_grammar.
+
+(* the same as an equation with the executable recogniser, rejections included:
+   uniform shape  holds (model x)  with  dom = everything *)
+Theorem C15_parse_eq_grammar : forall s, parse s = lift (grammar s).
+Proof. exact parse_eq_grammar. Qed.
+Print Assumptions C15_parse_eq_grammar.
+
+(* the recogniser decides the relation *)
+Theorem C15_gparse_iff_query : forall w p, gparse w = Some p <-> Query w p.
+Proof. exact gparse_iff_query. Qed.
+Print Assumptions C15_gparse_iff_query.
+
+(* every rejection is the path-parsing error; in particular the assert of
+   create_slice_object (EAssert) is unreachable *)
+Theorem C15_parse_error_class : forall s e, parse s = Err e -> e = EPathExpr.
+Proof. exact parse_error_class. Qed.
+Print Assumptions C15_parse_error_class.
+
+Theorem C15_parse_rejects_iff : forall s,
+  parse s = Err EPathExpr <-> forall p, ~ Query (strip_ws s) p.
+Proof. exact parse_rejects_iff. Qed.
+Print Assumptions C15_parse_rejects_iff.
+
+(* white space is ignored wherever it stands *)
+Theorem C15_parse_ignores_ws : forall s, parse s = parse (strip_ws s).
+Proof. exact parse_ignores_ws. Qed.
+Print Assumptions C15_parse_ignores_ws.
